@@ -98,7 +98,7 @@ var stallsOf = map[string][]stallSpec{
 	"fork":      {{"sink:db", 3}, {"sink:s", 3}, {"run:log", 2}, {"run:influxdb_out", 2}},
 	"union":     {{"sink:u", 5}, {"run:union", 3}, {"emit:union:2", 3}, {"run:log", 4}},
 	"join":      {{"sink:j", 5}, {"run:join", 3}},
-	"udf":       {{"sink:s", 4}, {"emit:mirror:3", 2}},
+	"udf":       {{"sink:s", 4}, {"run:mirror", 2}, {"emit:mirror:3", 2}, {"run:log", 3}},
 }
 
 var pipeOrder = []string{"influx1", "influx3", "influxbig", "chain", "alert", "log", "post", "loopback", "fork", "union", "join", "udf"}
@@ -154,8 +154,6 @@ func scenarios(r *rt.Run) ([]scen, int) {
 	add(scen{Pipe: "loopback", N: 2300, Stop: "StopTask", Stall: "run:kapacitor_loopback", Release: "after"})
 	add(scen{Pipe: "loopback", N: 900, Stop: "StopTask", Stall: "run:kapacitor_loopback", Release: "after"})
 	add(scen{Pipe: "loopback", N: 900, Stop: "DeleteTask", Stall: "run:kapacitor_loopback", Release: "after"})
-	// stop requested before the UDF node goroutine has opened its UDF (known nil dereference)
-	add(scen{Pipe: "udf", N: 5, Stop: "StopTask", Stall: "run:mirror", Release: "after"})
 	// a writer that keeps offering points while the daemon shuts down: every acknowledged point counts
 	for _, p := range []string{"influx1", "alert", "log", "union", "fork"} {
 		for _, api := range []string{"Close", "DrainStopTasks"} {
@@ -190,6 +188,11 @@ func scenarios(r *rt.Run) ([]scen, int) {
 		{Pipe: "influx3", N: 50, Stall: "sink:db", Release: "after", Fail: "panic:influxdb_out:5"},
 		{Pipe: "alert", N: 50, Stall: "sink:h", Release: "after", Fail: "panic:alert:5"},
 		{Pipe: "loopback", N: 50, Release: "before", Fail: "panic:kapacitor_loopback:5"},
+		// the child of a UDF node fails while the UDF still has output pending
+		{Pipe: "udf", N: 50, Release: "before", Fail: "panic:log:5"},
+		{Pipe: "udf", N: 2300, Stall: "sink:s", Release: "after", Fail: "panic:log:5"},
+		{Pipe: "udf", N: 2300, Stall: "run:log", Release: "before", Fail: "panic:log:1"},
+		{Pipe: "udf", N: 2300, Stall: "run:log", Release: "after", Fail: "panic:log:1"},
 	}
 	for i, f := range fails {
 		apis := allStops
